@@ -267,6 +267,17 @@ def rule_eqstate(ctx):
             problems.append(("type", "the type test uses isinstance(other, ...): asymmetric between a class and its subclasses"))
         else:
             problems.append(("type", "no exact-type test (type(self) == type(other)) found"))
+        if not c.is_subclass_of(prog.cls("conditions.ConditionBinaryOp")):
+            # sequences compared by membership (`all(i in B for i in A)` plus a length test, set(..) == set(..)):
+            # not symmetric and not transitive once an element can occur twice ([r, r, q] vs [r, r', q])
+            for n in ast.walk(eq.node):
+                memb = (isinstance(n, ast.Call) and norm(n.func) == "all" and n.args and isinstance(n.args[0], (ast.GeneratorExp, ast.ListComp))
+                        and isinstance(n.args[0].elt, ast.Compare) and isinstance(n.args[0].elt.ops[0], ast.In)
+                        and any(isinstance(x, ast.Attribute) and isinstance(x.value, ast.Name) and x.value.id in (eq.params[0].name, eq.params[1].name) for x in ast.walk(n.args[0])))
+                if memb:
+                    problems.append(("multiset", f"`{norm(n)[:90]}` compares two sequences by membership: with a repeated element x == y can hold while y == x does not "
+                                                 f"(and the 'equal' objects behave differently)"))
+                    break
         if c.is_subclass_of(prog.cls("conditions.ConditionBinaryOp")):
             # operand lists compared by membership (`all(i in B for i in A)`, set(..) == set(..)) forget how often
             # an operand occurs: a ^ a ^ b and a ^ b ^ b would compare equal although they differ in meaning
